@@ -111,6 +111,8 @@ THEOREMS = [
     "OllamaVerif.C13.pathToName_roundtrip",
     "OllamaVerif.C13.displayShortest_roundtrip",
     "OllamaVerif.C13.displayShortest_case_witness",
+    "OllamaVerif.C13.cross_modelpath_partial",
+    "OllamaVerif.C13.cross_modelpath_scheme_witness",
     "OllamaVerif.Tie.C13.first_sets_match",
     "OllamaVerif.Tie.C13.rest_sets_match",
     "OllamaVerif.Tie.C13.length_limits_match",
